@@ -23,6 +23,7 @@ EXPLANATION = (
   "class-level containers outside the tabled, idempotent ones."
   " (FIN-decoders) decode_bool, the fps decoder and the safe-area decoder accept the documented values with the documented meaning and reject near misses (probe tables evaluated with the finite evaluator);"
   " (CONFIG) the configuration file replaces - is not merged over - the inline configuration;"
+  ' (PARAM-pure) the reader / writer / filter entry points do not mutate their configuration argument; (STATE-alias / STATE-global) no module- or class-level state is written on the conversion path;'
 )
 RULE_TEXT = "per FileTypes member x {reader, writer}, per configuration class, per output-opening statement, per config field, per set iteration / global mutation"
 UNDECIDED = ["byte identity with the library pipeline as a whole", "that every decoder rejects exactly the undocumented values (decided for the probe tables of decode_bool, the fps decoder and the safe-area decoder only)",
@@ -364,9 +365,37 @@ def check_order_and_output(ctx):
   if len(langs) == 1:
     pos["lang"] = cv.top(langs[0])
     g = body[pos["lang"]]
-    tests = {unparse(x) for x in ast.walk(g.test)} if isinstance(g, ast.If) else set()
-    ctx.check(isinstance(g, ast.If) and f"{gen}.document_lang is not None" in tests and f"{gen} is not None" in tests and isinstance(g.test, ast.BoolOp) and isinstance(g.test.op, ast.And) and len(g.test.values) == 2 and not g.orelse,
-              "ORD", f"{conv.qualname}|document_lang applies exactly when it is configured", ctx.where(conv.module, g), f"`{gen} is not None and {gen}.document_lang is not None`",
+    # the call runs exactly when the general configuration and its document_lang are both present: the enclosing
+    # tests, read as a boolean function of the two `is None` facts, are evaluated on all four assignments
+    import itertools
+    conds = match.enclosing_conditions(langs[0], conv.node)
+
+    def leaf(e):
+      n1 = match.is_none_test(e, lambda x: unparse(x) == gen)
+      if n1 is not None:
+        return ("gen-none", n1)
+      n2 = match.is_none_test(e, lambda x: unparse(x) == f"{gen}.document_lang")
+      if n2 is not None:
+        return ("lang-none", n2)
+      return None
+    ok = bool(conds)
+    try:
+      for gn, ln in itertools.product((False, True), repeat=2):
+        def val(atom, gn=gn, ln=ln):
+          if atom == "gen-none":
+            return gn
+          if gn:
+            raise match.AtomError(atom)
+          return ln
+        try:
+          runs = all(match.eval_bool(t, leaf, val) == pol for t, pol in conds)
+        except match.AtomError:
+          runs = None
+        if runs != (not gn and not ln):
+          ok = False
+    except ValueError as e:
+      raise AnalysisError(f"convert: the guard of set_lang has a part that is not recognised: `{e}`")
+    ctx.check(ok, "ORD", f"{conv.qualname}|document_lang applies exactly when it is configured", ctx.where(conv.module, g), f"`{gen} is not None and {gen}.document_lang is not None`",
               "the document language override is not applied under exactly `general configuration present and document_lang present`")
   loops = [st for st in body if isinstance(st, ast.For) and unparse(st.iter) == f"{a}.filter"]
   ctx.check(len(loops) == 1, "ORD", f"{conv.qualname}|filters are applied in argument order", ctx.where(conv.module, conv.node), f"one `for ... in {a}.filter` loop", f"the filters are not applied by one loop over {a}.filter in order (reversed(), sorted(), set() change the order)")
